@@ -1,7 +1,8 @@
 (* C12/Property.v — property theorems only.  T is an ARBITRARY class table; trees and objects are
    unbounded.  The live tables enter through c12_live_table (re-checked on every run). *)
 From Coq Require Import String List Bool NArith.
-From Verif Require Import Base.Str Base.Py Base.Py2 Base.Xml Base.ClassTable C12.Model C12.Spec C12.Xsd C12.Proofs C12.Live C12.Source2.
+From Verif Require Import Base.Str Base.Py Base.Py2 Base.Xml Base.ClassTable C12.Model C12.Spec C12.Xsd C12.Proofs C12.Live C12.Source2
+  C12.Build C12.BuildProofs C12.XsdKept.
 From VerifGen Require Import ClassTables C12Schema C12Src2.
 Import ListNotations.
 
@@ -113,7 +114,7 @@ Print Assumptions c12_stable_wf_table.
 Theorem c12_attribute_value_idempotent : forall ext xa0 x xa1 tx1,
   NoDup (map fst xa0) -> forallb (fun kv => negb (is_xmlns_name (fst kv))) xa0 = true ->
   has_cr x = false ->
-  av_finish ext (av_B xa0) x = AvOk xa1 tx1 ->
+  av_finish (dmem qname_eqb xsi_nil xa0) ext (av_B xa0) x = AvOk xa1 tx1 ->
   av_fix_b ext xa1 tx1 = true.
 Proof. intros ext xa0 x xa1 tx1 N X C H. exact (proj1 (av_idem ext xa0 x xa1 tx1 N X C H)). Qed.
 Print Assumptions c12_attribute_value_idempotent.
@@ -172,6 +173,144 @@ Print Assumptions c12_f3_v0_refuted.
 Theorem c12_refuted_cr : exists T o, wf_table T = true /\ canonical T o /\ harvest T (o_cls o) (ser T o) <> o.
 Proof. exact roundtrip_refuted_cr. Qed.
 Print Assumptions c12_refuted_cr.
+
+(* ---------------------------------------------------------------- round 5: the BUILDING side (C12/Build.v)
+   What AttributeValueBase.__init__(text=v, extension_elements=ext, extension_attributes=arg) builds is what parsing
+   the corresponding element delivers - for every Python value v (None / str / bytes / int / bool; float is outside
+   the model), every list of extension elements and every arg (the argument never reaches the instance):
+   a falsy v (None, "", b"", 0, False) is <AttributeValue xsi:nil="true"/>, a str is the untyped element with that
+   text, an int is xs:integer with str(v), True is xs:boolean "true". *)
+Theorem c12_av_ctor_is_parse : forall v ext arg,
+  pyv_ok v = true -> modelled v = true ->
+  av_x1 ext (ctor_doc_text v) = ctor_doc_text v ->
+  to_av (av_ctor v ext arg)
+  = av_finish (dmem qname_eqb xsi_nil (ctor_doc_attrs v)) ext (av_B (ctor_doc_attrs v)) (ctor_doc_text v).
+Proof. exact ctor_is_parse. Qed.
+Print Assumptions c12_av_ctor_is_parse.
+
+(* ... hence an instance in the sense of the spec, which survives serialising and parsing unchanged and
+   byte-identically (any table, any class of kind KAttrValue without schema attributes / children; text without CR,
+   and without outer white space when there are extension elements: av_x1) *)
+Theorem c12_av_ctor_roundtrip : forall T c ci v ext arg xa tx,
+  class_at T c = Some ci -> c_kind ci = KAttrValue -> c_attributes ci = [] -> c_children ci = [] ->
+  wf_class T ci = true ->
+  pyv_ok v = true -> modelled v = true ->
+  forallb ee_ok ext = true -> forallb ee_no_cr ext = true ->
+  av_x1 ext (ctor_doc_text v) = ctor_doc_text v -> has_cr (ctor_doc_text v) = false ->
+  av_ctor v ext arg = TOk xa tx ->
+  let o := av_obj c ext xa tx in
+  canonical T o /\ harvest T c (ser T o) = o /\ harvest_status T c (ser T o) = SOk
+  /\ ser T (harvest T c (ser T o)) = ser T o.
+Proof. intros T c ci v ext arg xa tx H1 H2 H3 H4. exact (ctor_roundtrip T c ci H1 H2 H3 H4 v ext arg xa tx). Qed.
+Print Assumptions c12_av_ctor_roundtrip.
+
+(* a fresh instance, then set_text(v) / .text = v with a value whose text is not empty *)
+Theorem c12_av_fresh_set_text_roundtrip : forall T c ci v xa tx,
+  class_at T c = Some ci -> c_kind ci = KAttrValue -> c_attributes ci = [] -> c_children ci = [] ->
+  wf_class T ci = true ->
+  pyv_ok v = true -> modelled v = true -> is_empty (py_text v) = false -> has_cr (py_text v) = false ->
+  av_set_text v av_init_xattrs = TOk xa tx ->
+  let o := av_obj c [] xa tx in
+  canonical T o /\ harvest T c (ser T o) = o /\ harvest_status T c (ser T o) = SOk
+  /\ ser T (harvest T c (ser T o)) = ser T o.
+Proof. intros T c ci v xa tx H1 H2 H3 H4. exact (fresh_set_text_roundtrip T c ci H1 H2 H3 H4 v xa tx). Qed.
+Print Assumptions c12_av_fresh_set_text_roundtrip.
+
+(* for the live table: every class of kind KAttrValue is such a class (regenerated obligation live_av_plain) *)
+Theorem c12_live_av_ctor_roundtrip : forall c ci v ext arg xa tx,
+  class_at live_table c = Some ci -> c_kind ci = KAttrValue ->
+  pyv_ok v = true -> modelled v = true ->
+  forallb ee_ok ext = true -> forallb ee_no_cr ext = true ->
+  av_x1 ext (ctor_doc_text v) = ctor_doc_text v -> has_cr (ctor_doc_text v) = false ->
+  av_ctor v ext arg = TOk xa tx ->
+  let o := av_obj c ext xa tx in
+  harvest live_table c (ser live_table o) = o /\ ser live_table (harvest live_table c (ser live_table o)) = ser live_table o.
+Proof.
+  intros c ci v ext arg xa tx Hc Hk OK M E ECR X1 CR H o.
+  pose proof live_av_plain as P. rewrite forallb_forall in P.
+  assert (In_ci : In ci live_table) by (unfold class_at in Hc; eapply nth_error_In; exact Hc).
+  specialize (P ci In_ci). rewrite Hk in P.
+  destruct (c_attributes ci) as [|a ra] eqn:Ea; [|discriminate]. destruct (c_children ci) as [|k rk] eqn:Ek; [|discriminate].
+  destruct (ctor_roundtrip live_table c ci Hc Hk Ea Ek v ext arg xa tx (live_classes_wf c ci Hc) OK M E ECR X1 CR H)
+    as [_ [R1 [_ R3]]].
+  split; [exact R1|exact R3].
+Qed.
+Print Assumptions c12_live_av_ctor_roundtrip.
+
+(* C12-F5 (fixed by c1c601fb): set_text("") on a fresh instance leaves a typed, empty element without nil marker.
+   Against the parsing side as it was before the fix (av_finish_f5v0: the marker came back) it was no fixpoint ... *)
+Theorem c12_av_set_text_empty_v0_refuted :
+  exists xa tx, av_build (Recipe VNone [] [] [OSetText (VStr "")]) = TOk xa tx
+                /\ av_typed_empty [] xa tx = true
+                /\ av_fix_f5v0_b [] xa tx = false.
+Proof. exact set_text_empty_f5v0_refuted. Qed.
+Print Assumptions c12_av_set_text_empty_v0_refuted.
+
+(* ... with the parsing side as it is now (an empty element that declares a type and is not marked nil is the empty
+   value of that type) EVERY empty value of a declared type survives: a bare set_type(t) for every non-empty t, and
+   set_text("") / .text = "" on a fresh instance, which is set_type("xs:string") (c12_av_set_text_empty_state).
+   Outside: an empty type NAME (.text = None, set_type("")) and clear_type() on such an instance - class 8 below. *)
+Theorem c12_av_typed_empty_roundtrip : forall T c ci t,
+  class_at T c = Some ci -> c_kind ci = KAttrValue -> c_attributes ci = [] -> c_children ci = [] ->
+  wf_class T ci = true -> is_empty t = false ->
+  let o := av_obj c [] (av_set_type t av_init_xattrs) (Some ""%string) in
+  canonical T o /\ harvest T c (ser T o) = o /\ harvest_status T c (ser T o) = SOk
+  /\ ser T (harvest T c (ser T o)) = ser T o.
+Proof. intros T c ci t H1 H2 H3 H4. exact (typed_empty_roundtrip T c ci H1 H2 H3 H4 t). Qed.
+Print Assumptions c12_av_typed_empty_roundtrip.
+
+Theorem c12_av_set_text_empty_state :
+  av_set_text (VStr "") av_init_xattrs = TOk (av_set_type "xs:string" av_init_xattrs) (Some ""%string).
+Proof. exact set_text_empty_state. Qed.
+Print Assumptions c12_av_set_text_empty_state.
+
+(* the guards are necessary (open findings C12-F8 = what remains of F5, C12-F6, C12-F7; faithful model of the code
+   as it is): .text = None on a fresh instance leaves xsi:type="" without nil marker, which parsing marks nil *)
+Theorem c12_av_text_none_refuted :
+  exists xa tx, av_build (Recipe VNone [] [] [OSetText VNone]) = TOk xa tx
+                /\ av_untyped_empty [] xa tx = true
+                /\ harvest b_table 0%N (ser b_table (av_obj 0%N [] xa tx)) <> av_obj 0%N [] xa tx.
+Proof. exact text_none_refuted. Qed.
+Print Assumptions c12_av_text_none_refuted.
+
+Theorem c12_av_ws_ext_refuted :
+  exists e xa tx, av_ctor (VStr " a ") [e] [] = TOk xa tx /\ av_ws_ext [e] xa tx = true
+                  /\ harvest b_table 0%N (ser b_table (av_obj 0%N [e] xa tx)) <> av_obj 0%N [e] xa tx.
+Proof. exact ws_ext_refuted. Qed.
+Print Assumptions c12_av_ws_ext_refuted.
+
+Theorem c12_av_xmlns_order_refuted :
+  exists xa tx, av_build (Recipe (VStr "a") [] [] [OXAttr (QN None "foo") "bar"]) = TOk xa tx
+                /\ av_xmlns_misplaced [] xa tx = true
+                /\ harvest b_table 0%N (ser b_table (av_obj 0%N [] xa tx)) <> av_obj 0%N [] xa tx.
+Proof. exact xmlns_order_refuted. Qed.
+Print Assumptions c12_av_xmlns_order_refuted.
+
+(* ---------------------------------------------------------------- round 5: WHICH children are unknown is said by the
+   schema files.  Whenever a table registers only children of the schema's content model (xsd_known_b, decidable),
+   "nothing dropped" as the table sees it implies that every child the SCHEMA does not give the element is an
+   extension element ... *)
+Theorem c12_xsd_kept : forall T X A c t o,
+  xsd_known_b T X A = true -> nd_b T c t o = true -> xsd_kept_b T X A c t o = true.
+Proof. exact nd_xsd_kept. Qed.
+Print Assumptions c12_xsd_kept.
+
+(* ... the regenerated obligation: no live class registers a child its schema type does not have (reviewed
+   exceptions: Xsd.xsd_extra_allowed) ... *)
+Theorem c12_live_xsd_known : xsd_known_b live_table live_xsd xsd_extra_allowed = true.
+Proof. exact live_xsd_known_ok. Qed.
+Print Assumptions c12_live_xsd_known.
+
+(* ... and a table polluted by a sibling's child (the aliased child table) is consistent in itself, satisfies nd_b,
+   and is caught both by the obligation and on the document *)
+Theorem c12_xsd_pollution_detected :
+  nd_b x_table_polluted 0%N x_doc_s (harvest x_table_polluted 0%N x_doc_s) = true
+  /\ xsd_kept_b x_table_polluted x_xsd [] 0%N x_doc_s (harvest x_table_polluted 0%N x_doc_s) = false
+  /\ xsd_known_b x_table_polluted x_xsd [] = false
+  /\ xsd_kept_b (x_table ["a"; "b"]%string) x_xsd [] 0%N x_doc_s (harvest (x_table ["a"; "b"]%string) 0%N x_doc_s) = true
+  /\ xsd_known_b (x_table ["a"; "b"]%string) x_xsd [] = true.
+Proof. exact xsd_pollution_detected. Qed.
+Print Assumptions c12_xsd_pollution_detected.
 
 (* ---------------------------------------------------------------- tie to the source TEXT (translator v2)
    gen/C12Src2.v is re-translated from saml2/__init__.py and saml2/saml.py on every run; C12/Source2.v proves each
